@@ -261,6 +261,14 @@ func propC01(c c01Case) (ev.Outcome, error) {
 		}
 		o.NonTrivial = len(exp.Calls) > 0 && nExcl > 0
 	}
+	// (1b) every extractor is handed the whole file: what it can read from the reader is as long
+	// as the file information it is given says (an extractor that runs after another one on the
+	// same file must not find the reader where the first one left it)
+	for _, cl := range out.Calls {
+		if cl.Regular && cl.ReadErr == "" && cl.BytesRead != cl.InfoSize {
+			return o, fmt.Errorf("Extract of %s on %s could read %d bytes from its reader, the file information says %d (other extractors called on this file: %v)", cl.Extractor, cl.Path, cl.BytesRead, cl.InfoSize, callsOn(out.Calls, cl.Path))
+		}
+	}
 	// (2) AfterExtractorRun fired once per call.
 	if len(out.ExtRuns) != len(out.Calls) {
 		return o, fmt.Errorf("AfterExtractorRun fired %d times for %d Extract calls", len(out.ExtRuns), len(out.Calls))
@@ -328,3 +336,13 @@ func TestC01_realfs(t *testing.T) {
 }
 
 var _ = sort.Strings
+
+func callsOn(calls []recext.Call, p string) []string {
+	var out []string
+	for _, c := range calls {
+		if c.Path == p {
+			out = append(out, c.Extractor)
+		}
+	}
+	return out
+}
